@@ -672,7 +672,9 @@ pub mod inner {
         /// If `row >= self.height()`.
         #[inline]
         fn index_mut(&mut self, row: usize) -> &mut [T] {
-            let idx = self.to_index_strict(0, row as u32);
+            // A row index beyond u32 is out of bounds, not row `row mod 2^32`
+            let y = u32::try_from(row).unwrap_or(u32::MAX);
+            let idx = self.to_index_strict(0, y);
             let w = self.dims.0 as usize;
             &mut self.data[idx..][..w]
         }
